@@ -55,7 +55,20 @@ claim("C02", "model_checking", DT + "Every block carries an always-violated rule
       "TLA+ spec DiffTouch.tla (selection contract MustSelect/MustNotSelect) model-checked with TLC; spec->impl replay "
       "(list + run + run-with-glob per behaviour); deviation switches attribute known findings", "DESIGN.md §6 C02")
 
-for pid in ["C03", "C04", "C05", "C10", "C11", "C12", "C13", "C14", "C15", "C16", "C17", "C18", "C19", "C20"]:
+RUNTXT = ("TLC explores Run.tla -- one action per critical section of validators::run / run_sync_validators / "
+          "run_async_validators and of the check-lua / check-ai task loops -- for every outcome assignment and every "
+          "interleaving within the bounds and checks the invariants named below in every state; every outcome "
+          "assignment is emitted with the verdict all interleavings must produce, realised as a repository and run "
+          "through the real CLI; hook traces of the runs are validated against Run.tla / Detect.tla by TraceRun.tla / "
+          "TraceDetect.tla (every logged event must be an enabled spec action, logged accumulators must equal the "
+          "spec's, all invariants evaluated in every state). ")
+claim("C11", "model_checking", RUNTXT + "Invariants: NoLostNoDup, ExitIffError, SilentWhenClean; plus list mode on a sample.",
+      "Trusted: the scenario concretiser (rule spellings that violate / do not violate), the hook placement (events "
+      "under one mutex with a global sequence number), tokio/std thread semantics as abstracted in Run.tla.",
+      "TLA+ spec Run.tla model-checked with TLC (all interleavings); spec->impl replay of every TLC outcome assignment "
+      "through the CLI; impl->spec trace validation (TraceRun.tla, TraceDetect.tla)", "DESIGN.md §6 C11")
+
+for pid in ["C03", "C04", "C05", "C10", "C12", "C13", "C14", "C15", "C16", "C17", "C18", "C19", "C20"]:
     NA[pid] = "check not built yet in this round (planned, see DESIGN.md §6); not a limit of the technique"
 
 
